@@ -1146,11 +1146,19 @@ class _InstallSummary:
         self._sites = {}
         self._parse = {}
 
+    def _modhelper(self, name):
+        """a private function of network.py whose first parameter can take the network (and that is not also a method's name)"""
+        fn = self.pkg.functions.get((NF, name))
+        return fn if fn is not None and _private(name) and name not in self.ci.methods and fn.args.args else None
+
+    def _fn(self, name):
+        return self.ci.methods.get(name) or self._modhelper(name)
+
     def sites(self, mname, depth=0):
         from ..valueflow import Flow, simp
         if mname in self._sites:
             return self._sites[mname]
-        fn = self.ci.methods.get(mname)
+        fn = self._fn(mname)
         out = []
         self._sites[mname] = out            # recursion guard
         if fn is None or depth > 3:
@@ -1158,6 +1166,12 @@ class _InstallSummary:
         SELF = ("param", fn.args.args[0].arg) if fn.args.args else ("param", "self")
         fl = Flow(fn, NF)
         for f in fl.facts:
+            if f.kind == "call" and f.value is not None and f.value[0] == "call" and simp(f.value[1])[0] == "global" and self._modhelper(simp(f.value[1])[1]) \
+                    and simp(f.value[1])[1] != mname and f.value[2] and simp(f.value[2][0]) == SELF:
+                # a piece of the method moved into a private FUNCTION of the module that is handed the network
+                for x in self.sites(simp(f.value[1])[1], depth + 1):
+                    out.append({"what": x["what"], "guards": tuple(f.guards) + tuple(x["guards"]), "line": f.line, "loops": bool(f.loops) or x["loops"]})
+                continue
             if f.kind != "call" or f.value is None or f.value[0] != "meth":
                 continue
             obj, name = simp(f.value[1]), f.value[2]
@@ -1171,18 +1185,22 @@ class _InstallSummary:
     def parse_lines(self, mname, depth=0):
         if mname in self._parse:
             return self._parse[mname]
-        fn = self.ci.methods.get(mname)
+        fn = self._fn(mname)
         out = []
         self._parse[mname] = out
         if fn is None or depth > 3:
             return out
+        me = fn.args.args[0].arg if fn.args.args else "self"
         for n in ast.walk(fn):
             if not isinstance(n, ast.Call):
                 continue
             t = ast.unparse(n.func)
-            if t == "Species" or t.endswith("_reaction_factory"):
+            if t == "Species" or "_reaction_factory" in t.split(".")[-1]:
                 out.append(n.lineno)
-            elif isinstance(n.func, ast.Attribute) and isinstance(n.func.value, ast.Name) and n.func.value.id == "self" and n.func.attr in self.ci.methods and n.func.attr != mname:
+            elif isinstance(n.func, ast.Name) and self._modhelper(t) is not None and t != mname and n.args and isinstance(n.args[0], ast.Name) and n.args[0].id == me:
+                if self.parse_lines(t, depth + 1):
+                    out.append(n.lineno)
+            elif isinstance(n.func, ast.Attribute) and isinstance(n.func.value, ast.Name) and n.func.value.id == me and n.func.attr in self.ci.methods and n.func.attr != mname:
                 callee = n.func.attr
                 if _private(callee):
                     if self.parse_lines(callee, depth + 1):
@@ -1442,6 +1460,19 @@ def krome_reset(ctx, pkg, rule="R4"):
     ctx.saw(KR, "KROMEReaction.preprocessing")
     _, pre = pkg.resolve("KROMEReaction", "preprocessing")
     _, ini = pkg.resolve("KROMEReaction", "initialize")
+    def modpiece(c):
+        """the call hands `cls` to a private function of the module whose parameter in that place is called cls too: a piece of the
+        classmethod moved out of the class (its `cls.X = ..` are the class's)"""
+        if not (isinstance(c, ast.Call) and isinstance(c.func, ast.Name) and _private(c.func.id)):
+            return None
+        h = pkg.functions.get((ci.file, c.func.id))
+        if h is None:
+            return None
+        ps = [a.arg for a in h.args.args]
+        given = [ps[i] for i, a in enumerate(c.args) if isinstance(a, ast.Name) and a.id == "cls" and i < len(ps)] + \
+                [k.arg for k in c.keywords if isinstance(k.value, ast.Name) and k.value.id == "cls"]
+        return h if given and all(g == "cls" for g in given) else None
+
     def with_helpers(fn):
         """the method and the private classmethods of the class it calls on cls (transitively): one body split in pieces"""
         out, todo = [fn], [fn]
@@ -1453,6 +1484,9 @@ def krome_reset(ctx, pkg, rule="R4"):
                     if h is not None and not any(h is y for y in out):
                         out.append(h)
                         todo.append(h)
+                elif modpiece(c) is not None and not any(modpiece(c) is y for y in out):
+                    out.append(modpiece(c))
+                    todo.append(modpiece(c))
         return out
     mutated = set()
     for part in with_helpers(pre):
@@ -1479,7 +1513,7 @@ def krome_reset(ctx, pkg, rule="R4"):
     unread = sorted({ast.unparse(c.func)[:40] for part in with_helpers(ini) for c in ast.walk(part) if isinstance(c, ast.Call) and (
         (isinstance(c.func, ast.Name) and c.func.id in ("setattr", "vars", "super")) or
         (isinstance(c.func, ast.Attribute) and isinstance(c.func.value, ast.Name) and c.func.value.id == "cls" and not _private(c.func.attr)) or
-        any(isinstance(a_, ast.Name) and a_.id == "cls" for a_ in list(c.args) + [k_.value for k_ in c.keywords]))}
+        (modpiece(c) is None and any(isinstance(a_, ast.Name) and a_.id == "cls" for a_ in list(c.args) + [k_.value for k_ in c.keywords])))}
         | {"__dict__" for part in with_helpers(ini) for n in ast.walk(part) if isinstance(n, ast.Attribute) and n.attr == "__dict__"})
     for a in sorted(mutated):
         if a not in reset and unread:
@@ -1520,6 +1554,9 @@ def krome_reset(ctx, pkg, rule="R4"):
     def module_level(name):
         ci_ = pkg.classes.get(name)
         return pkg.functions.get((NF, name)) or (ci_.node if ci_ is not None and ci_.file == NF else None)
+    # the private method that parses one reaction string (kept as the call it is), under whatever suffix a renaming gave it
+    cands = [m for m in net.methods if _private(m) and m.startswith("_add_reaction")]
+    parse_m = "_add_reaction" if "_add_reaction" in net.methods or len(cands) != 1 else cands[0]
     for mname in ("add_reaction_from_file", "add_reaction"):
         # a reset that happens on ENTERING a `with` block (a context manager of the module bracketing the reading) is the reset
         # written in front of the block
@@ -1528,14 +1565,14 @@ def krome_reset(ctx, pkg, rule="R4"):
         # statements of a helper carry the line numbers of where they were written: renumbered in statement order)
         base_fn = net.methods[mname]
         try:
-            exp = ast.parse(ast.unparse(pkg.expanded("Network", mname, keep=("_add_reaction",)))).body[0]
+            exp = ast.parse(ast.unparse(pkg.expanded("Network", mname, keep=(parse_m,)))).body[0]
             ast.increment_lineno(exp, base_fn.lineno - 1)
         except (AnalysisError, RecursionError, SyntaxError, IndexError):
             exp = copy.deepcopy(base_fn)
         fn = inline_context_managers(exp, module_level)
         fl = Flow(fn, NF)
         init_calls = [f for f in fl.facts if f.kind == "call" and f.target == "initialize" and f.value is not None and f.value[0] == "meth" and not f.value[3]]
-        reads_lines = [n.lineno for n in ast.walk(fn) if isinstance(n, ast.Call) and ast.unparse(n.func) == "self._add_reaction"]
+        reads_lines = [n.lineno for n in ast.walk(fn) if isinstance(n, ast.Call) and ast.unparse(n.func) == f"self.{parse_m}"]
         if not init_calls:
             # not in this method: in a private helper it calls?  then order and conditions are not decided here
             helpers = [n.func.attr for n in ast.walk(fn) if isinstance(n, ast.Call) and isinstance(n.func, ast.Attribute) and isinstance(n.func.value, ast.Name)
